@@ -325,7 +325,9 @@ class MpsMpoOBC(_MpsMpoParent):
         discarded = 0.
         if self.pC is not None:
 
-            U, S, V = svd(self.A[self.pC], axes=(0, 1), sU=1)
+            C = self.A[self.pC]
+            C = C.diag() if C.isdiag else C  # central block is diagonal after a previous diagonalize_central_
+            U, S, V = svd(C, axes=(0, 1), sU=1)
             nSold = S.norm()
 
             mask = truncation_mask(S, **opts_svd)
